@@ -2,7 +2,7 @@
    for EVERY seeding function, parameter set and maxDifference. *)
 From Coq Require Import ZArith List Bool Lia Sorting.Permutation.
 Import ListNotations.
-Require Import Py PyProofs Pairing Core Multi Coordinator ModesProofs1 ModesProofs2 ModesProofs3.
+Require Import Py PyProofs Pairing Core Multi Coordinator ModesProofs1 ModesProofs2 ModesProofs3 RowEq.
 Open Scope Z_scope.
 
 (* ---------- rows produced by a pass carry AlignedRest False ---------- *)
@@ -45,16 +45,25 @@ Lemma multi_separate maxdiff : multi_execute P seeds Separate maxdiff refs qs = 
 Proof. unfold multi_execute, passes. destruct (execute P seeds refs qs 1) as [r1|]; [|reflexivity]. cbn [bind].
   destruct (all_fragments (fst r1) qs) as [fr|]; [|reflexivity]. cbn [bind].
   destruct (execute P seeds refs fr (snd r1)) as [r2|]; reflexivity. Qed.
+(* repair F12: `row not in filteredFirstPassRows` keeps every second-pass row in these modes (AlignedRest differs) *)
+Lemma pass_rows_fresh r1 (r2 : list row * Z) : execute P seeds refs qs 1 = Ok r1 ->
+  filter (fun w => negb (row_in w (filter_subsequent (fst r1)))) (filter_subsequent (map set_rest (fst r2))) =
+  filter_subsequent (map set_rest (fst r2)).
+Proof. intros E1. apply fresh_rows_rest; apply Forall_forall; intros w Hw; apply fs_in in Hw.
+  - pose proof (execute_rest _ _ _ _ _ _ E1) as HF. rewrite Forall_forall in HF. apply HF. exact Hw.
+  - apply in_map_iff in Hw. destruct Hw as (y & <- & _). reflexivity. Qed.
 Lemma multi_joined maxdiff : multi_execute P seeds Joined maxdiff refs qs =
   do p <- passes; do js <- results_resolve (fst p ++ snd p) maxdiff; Ok (mkOut (fst js) (Some (snd js)) None).
-Proof. unfold multi_execute, passes. destruct (execute P seeds refs qs 1) as [r1|]; [|reflexivity]. cbn [bind].
+Proof. unfold multi_execute, passes. destruct (execute P seeds refs qs 1) as [r1|] eqn:E1; [|reflexivity]. cbn [bind].
   destruct (all_fragments (fst r1) qs) as [fr|]; [|reflexivity]. cbn [bind].
-  destruct (execute P seeds refs fr (snd r1)) as [r2|]; reflexivity. Qed.
+  destruct (execute P seeds refs fr (snd r1)) as [r2|]; [|reflexivity]. cbn [bind fst snd].
+  rewrite (pass_rows_fresh r1 r2 E1). reflexivity. Qed.
 Lemma multi_all maxdiff : multi_execute P seeds All_ maxdiff refs qs =
   do p <- passes; do js <- results_resolve (fst p ++ snd p) maxdiff; Ok (mkOut (fst js) (Some (fst p)) (Some (snd p))).
-Proof. unfold multi_execute, passes. destruct (execute P seeds refs qs 1) as [r1|]; [|reflexivity]. cbn [bind].
+Proof. unfold multi_execute, passes. destruct (execute P seeds refs qs 1) as [r1|] eqn:E1; [|reflexivity]. cbn [bind].
   destruct (all_fragments (fst r1) qs) as [fr|]; [|reflexivity]. cbn [bind].
-  destruct (execute P seeds refs fr (snd r1)) as [r2|]; reflexivity. Qed.
+  destruct (execute P seeds refs fr (snd r1)) as [r2|]; [|reflexivity]. cbn [bind fst snd].
+  rewrite (pass_rows_fresh r1 r2 E1). reflexivity. Qed.
 
 Lemma passes_spec f1 f2 : passes = Ok (f1, f2) ->
   ssorted qid f1 /\ ssorted qid f2 /\ Forall (fun w => rest w = false) f1 /\ Forall (fun w => rest w = true) f2.
